@@ -5,6 +5,14 @@ func init() {
 	const comp = "dnsdata/rdb/rdb_compiler.go"
 	const parser = "dnsdata/parser.go"
 	addVariants(
+		variant{Name: "c15-batch-entries-coalesced(seed c15a)", Props: []string{"C15", "C08"}, Expect: []string{"C15.single-value|(*dnsdata/rdb.kvList).push|values-store#1|one-element", "C08.single-value|(*dnsdata/rdb.kvList).push|values-store#1|one-element"},
+			Edits: []edit{{"dnsdata/rdb/rdb.go", "\tbatch.addedPairs = append(\n\t\tbatch.addedPairs,\n\t\tkeyValues{\n\t\t\tkey:    copyBytes(key),\n\t\t\tvalues: [][]byte{copyBytes(value)},\n\t\t},\n\t)\n", "\tbatch.addedPairs.push(key, value)\n"}, {"dnsdata/rdb/rdb.go", "\tbatch.deletedPairs = append(\n\t\tbatch.deletedPairs,\n\t\tkeyValues{\n\t\t\tkey:    copyBytes(key),\n\t\t\tvalues: [][]byte{copyBytes(value)},\n\t\t},\n\t)\n", "\tbatch.deletedPairs.push(key, value)\n"}, {"dnsdata/rdb/rdb_util.go", "\nfunc copyBytes(b []byte) []byte {", "\nfunc (kv *kvList) push(key, value []byte) {\n\tif n := len(*kv); n > 0 && bytes.Equal((*kv)[n-1].key, key) {\n\t\t(*kv)[n-1].values = append((*kv)[n-1].values, copyBytes(value))\n\t\treturn\n\t}\n\t*kv = append(*kv, keyValues{\n\t\tkey:    copyBytes(key),\n\t\tvalues: [][]byte{copyBytes(value)},\n\t})\n}\n\nfunc copyBytes(b []byte) []byte {"}}},
+		variant{Name: "c15-batch-push-helper(benign)", Benign: true, Props: []string{"C15", "C08"},
+			Edits: []edit{{"dnsdata/rdb/rdb.go", "\tbatch.addedPairs = append(\n\t\tbatch.addedPairs,\n\t\tkeyValues{\n\t\t\tkey:    copyBytes(key),\n\t\t\tvalues: [][]byte{copyBytes(value)},\n\t\t},\n\t)\n", "\tbatch.addedPairs.push(key, value)\n"}, {"dnsdata/rdb/rdb.go", "\tbatch.deletedPairs = append(\n\t\tbatch.deletedPairs,\n\t\tkeyValues{\n\t\t\tkey:    copyBytes(key),\n\t\t\tvalues: [][]byte{copyBytes(value)},\n\t\t},\n\t)\n", "\tbatch.deletedPairs.push(key, value)\n"}, {"dnsdata/rdb/rdb_util.go", "\nfunc copyBytes(b []byte) []byte {", "\nfunc (kv *kvList) push(key, value []byte) {\n\t*kv = append(*kv, keyValues{\n\t\tkey:    copyBytes(key),\n\t\tvalues: [][]byte{copyBytes(value)},\n\t})\n}\n\nfunc copyBytes(b []byte) []byte {"}}},
+		variant{Name: "c08-integrate-dedups-additions(seed c08b)", Props: []string{"C08", "C15"}, Expect: []string{"C08.apply-unconditional|(*dnsdata/rdb.Batch).integrate|appendValues#1", "C15.apply-unconditional|(*dnsdata/rdb.Batch).integrate|appendValues#1"},
+			Edits: []edit{{"dnsdata/rdb/rdb.go", "\t\t\t(*dbValues)[i] = appendValues((*dbValues)[i], batch.addedPairs[aOffset].values)\n", "\t\t\tfor _, v := range batch.addedPairs[aOffset].values {\n\t\t\t\tif bytes.Contains((*dbValues)[i], v) {\n\t\t\t\t\tcontinue\n\t\t\t\t}\n\t\t\t\t(*dbValues)[i] = appendValues((*dbValues)[i], [][]byte{v})\n\t\t\t}\n"}}},
+		variant{Name: "c08-integrate-per-value-append(benign)", Benign: true, Props: []string{"C08", "C15"},
+			Edits: []edit{{"dnsdata/rdb/rdb.go", "\t\t\t(*dbValues)[i] = appendValues((*dbValues)[i], batch.addedPairs[aOffset].values)\n", "\t\t\tfor _, v := range batch.addedPairs[aOffset].values {\n\t\t\t\t(*dbValues)[i] = appendValues((*dbValues)[i], [][]byte{v})\n\t\t\t}\n"}}},
 		variant{Name: "c07-executebatch-locks-after-read", Props: []string{"C07", "C08", "C15"}, Expect: []string{"C07.rmw|(*dnsdata/rdb.RDB).ExecuteBatch", "C15.rmw|(*dnsdata/rdb.RDB).ExecuteBatch"},
 			Edits: []edit{{rdbgo, "\trdb.writeMutex.Lock()\n\tdefer rdb.writeMutex.Unlock()\n\tdbValues, errors := rdb.db.GetMulti(rdb.readOptions, uniqueKeys)\n", "\tdbValues, errors := rdb.db.GetMulti(rdb.readOptions, uniqueKeys)\n\trdb.writeMutex.Lock()\n\tdefer rdb.writeMutex.Unlock()\n"}}},
 		variant{Name: "c07-add-unlocks-between-read-and-write", Props: []string{"C07", "C15"}, Expect: []string{"C07.rmw|(*dnsdata/rdb.RDB).Add"},
